@@ -653,6 +653,9 @@ func opMsg(w *World, op *Op) {
 	}
 	gas := relNum(op.Gas, big.NewInt(600000), "i").Uint64()
 	fee := new(big.Int).Mul(price, new(big.Int).SetUint64(gas))
+	if op.Val != "" && op.Mut == "stk_native" {
+		fee = relNum(op.Val, new(big.Int), "_") // the twin declares exactly the fee its counterpart paid
+	}
 	_, num, _ := w.committedSeq(wl.Acc())
 	cur := w.nextNonce(op.W, wl)
 	c := &CosmosTx{Msgs: msgs, Gas: gas, Fee: sdk.NewCoins(sdk.NewCoin(BaseDenom, sdkmath.NewIntFromBigInt(fee))), AccNum: num, Seq: cur}
